@@ -7,7 +7,7 @@ part uses ghost snapshots and `assert`s inserted at anchors (X6: insert-only spe
 """
 import re
 import prelude as P
-from unitlib import AnchorLost, code_mask, match_delim
+from unitlib import AnchorLost, code_mask, match_delim, extract
 
 PEER = 'crates/anemo/src/network/peer.rs'
 RH = 'crates/anemo/src/network/request_handler.rs'
@@ -197,7 +197,7 @@ def _select_arms(inner):
     return arms
 
 
-def accept_loop_standin(key, props):
+def accept_loop_standin(key, props, C=None, js='inflight_requests', cr='close_reason'):
     """X4 for a select! loop: `loop { tokio::select! { p1 = f1 => b1, ... } }` becomes a loop over a nondeterministic choice of arm; the chosen
     arm awaits its own future (a refutable pattern that does not match disables the arm, as in tokio).  `break e` (the value of the loop
     is what the lifted function returns) becomes `return e`.  Inserts the per-iteration ghost snapshot and the two loop-level obligations."""
@@ -226,13 +226,27 @@ def accept_loop_standin(key, props):
         verdict = ('if select_nondet() { assert(false); }' if waits else 'assert(true);')
         out.append('        %s // @OBL %s::arms_do_not_wait [%s] @CONFIRM between two rounds of accepting streams the loop never waits on anything (no await inside an arm of the select): a silent stream or a slow handler cannot keep the connection\'s other streams from being accepted%s'
                    % (verdict, key, ','.join(props), (' -- arm(s) %s of the select await inside their body' % waits) if waits else ''))
-        out.append('        assert(inflight_requests.spawned@.len() <= pre.len() + 1); // @OBL %s::at_most_one_task_per_round [C02,C06] one round of the loop spawns at most one handler task' % key)
+        out.append('        assert(%s.spawned@.len() <= pre.len() + 1); // @OBL %s::at_most_one_task_per_round [C02,C06] one round of the loop spawns at most one handler task' % (js, key))
         t = t[:m.start()] + '\n        '.join(out) + t[c + 1:]
         t2, nb = re.subn(r'\bbreak\s+([^;{}]+);', r'return \1;', t)
-        t3, nl = re.subn(r'let\s+close_reason\s*=\s*loop\s*\{', 'loop {\n            let ghost pre = inflight_requests.spawned@;', t2, count=1)
+        t3, nl = re.subn(r'let\s+%s\s*=\s*loop\s*\{' % re.escape(cr), 'loop {\n            let ghost pre = %s.spawned@;' % js, t2, count=1)
         if not nl:
-            raise AnchorLost('%s: the loop is no longer bound to close_reason' % key)
-        # `loop { .. };` was a let statement: drop the `;` that closed it and the tail expression is unreachable
+            raise AnchorLost('%s: the loop is no longer bound to a variable' % key)
+        # ---- the obligations about the handler task, attached by SHAPE (the names of the locals are read from the text, so renaming them changes nothing)
+        HANDLER_OBLS = '''
+                            assert(%(js)s.spawned@ == pre.push(h0) && h0.send_stream.inner == tx0 && h0.recv_stream.inner == rx0 && h0.recv_stream.buffered@.len() == 0); // @OBL %(key)s::one_handler_per_accepted_stream [C02,C06] every accepted bidirectional stream is handed to exactly one new handler task, which serves exactly the two halves of that stream
+                            assert(h0.connection == this.connection && h0.service == this.service); // @OBL %(key)s::handler_bound_to_connection_and_service [C01,C02] that handler attributes requests to THIS connection (its authenticated identity) and calls THIS network's service
+                            assert(h0.send_stream.codec == h0.recv_stream.codec && (this.config.max_frame_size is Some ==> h0.send_stream.codec.max == this.config.max_frame_size->Some_0)); // @OBL %(key)s::handler_uses_configured_limit [C15] and frames both directions with the configured maximum frame size''' % dict(js=js, key=key)
+        mp = list(re.finditer(r'Ok\(\(\s*(\w+)\s*,\s*(\w+)\s*\)\)\s*=>\s*\{', t3))
+        ms = list(re.finditer(r'\b%s\.spawn\(\s*(\w+)\.handle\(\)\s*\)\s*;' % re.escape(js), t3))
+        if len(mp) == 1 and len(ms) == 1 and mp[0].end() < ms[0].start():
+            (tx, rx), h = mp[0].groups(), ms[0].group(1)
+            t3 = (t3[:mp[0].end()] + ' let ghost tx0 = %s; let ghost rx0 = %s;' % (tx, rx) + t3[mp[0].end():ms[0].start()]
+                  + 'let ghost h0 = %s;\n                            %s.spawn(HandleTask { h: %s });' % (h, js, h) + HANDLER_OBLS + t3[ms[0].end():])
+            e.log('X6', 'ghost snapshots of the accepted halves (%s, %s) and of the handler (%s); three asserts after the spawn' % (tx, rx, h))
+            e.log('X5', '`%s.handle()` (an un-awaited future) -> HandleTask { h: %s }' % (h, h))
+        elif C is not None:
+            C._lose(key, props, [HANDLER_OBLS], 'the accept arm no longer has the shape `Ok((tx, rx)) => { .. <set>.spawn(<handler>.handle()); }` (found %d / %d such places)' % (len(mp), len(ms)), body=False)
         e.text = t3
         e.log('X4', 'tokio::select! with %d arms replaced by a nondeterministic choice; `break e` -> `return e` (x%d); ghost snapshot per round' % (len(arms), nb))
     return tr
@@ -341,19 +355,20 @@ def build(C):
     t += C.item(RH, 'struct InboundRequestHandler', derives=False, rewrites=[
         dict(rule='X5', pattern='BoxCloneService<Request<Bytes>, Response<Bytes>, Infallible>', repl='Svc', optional=True), dict(rule='X5', pattern='Arc<Config>', repl='Config', optional=True)])
     KEY = 'InboundRequestHandler::start::accept_loop'
-    t += C.lifted(RH, 'impl InboundRequestHandler :: fn start', KEY, ['C06', 'C02', 'C09'], anchor='let close_reason = loop', kind='stmt',
+    # the names of the two locals the lifted loop shares with its surroundings are read from the text (renaming them changes nothing)
+    try:
+        src = extract(C.repo, RH, 'impl InboundRequestHandler :: fn start').text
+    except AnchorLost:
+        src = ''
+    mj = re.search(r'let\s+mut\s+(\w+)\s*=\s*(?:tokio::task::)?JoinSet::new\(\)', src)
+    ml = re.search(r'let\s+(\w+)\s*=\s*loop\b', src)
+    js, cr = (mj.group(1) if mj else 'inflight_requests'), (ml.group(1) if ml else 'close_reason')
+    t += C.lifted(RH, 'impl InboundRequestHandler :: fn start', KEY, ['C06', 'C02', 'C09'], anchor='let %s = loop' % cr, kind='stmt',
                   name='inbound_request_handler_accept_loop', is_async=True, attrs='#[verifier::exec_allows_no_decreases_clause]\n',
-                  params='this: &InboundRequestHandler, inflight_requests: &mut JoinSet', ret_ty='Error', ret='close_reason',
+                  params='this: &InboundRequestHandler, %s: &mut JoinSet' % js, ret_ty='Error', ret='close_reason',
                   rewrites=[dict(rule='X10', pattern='self.', repl='this.'), dict(rule='X10', pattern='Self::', repl='InboundRequestHandler::', optional=True), dict(rule='X5', pattern='this.connection.accept_uni()', repl='this.connection.accept_uni_stream()', optional=True),
-                            dict(rule='X5', pattern='std::panic::resume_unwind', repl='resume_unwind', optional=True),
-                            dict(rule='X5', pattern='request_handler.handle()', repl='HandleTask { h: request_handler }', optional=True)],
-                  transforms=[accept_loop_standin(KEY, ['C06'])],
-                  inserts=[('X6', 'Ok((bi_tx, bi_rx)) => {', ' let ghost tx0 = bi_tx; let ghost rx0 = bi_rx;', 'after', False),
-                           ('X6', 'inflight_requests.spawn(HandleTask { h: request_handler });', 'let ghost h0 = request_handler;\n                            ', 'before', False),
-                           ('X6', 'inflight_requests.spawn(HandleTask { h: request_handler });', '''
-                            assert(inflight_requests.spawned@ == pre.push(h0) && h0.send_stream.inner == tx0 && h0.recv_stream.inner == rx0 && h0.recv_stream.buffered@.len() == 0); // @OBL InboundRequestHandler::start::accept_loop::one_handler_per_accepted_stream [C02,C06] every accepted bidirectional stream is handed to exactly one new handler task, which serves exactly the two halves of that stream
-                            assert(h0.connection == this.connection && h0.service == this.service); // @OBL InboundRequestHandler::start::accept_loop::handler_bound_to_connection_and_service [C01,C02] that handler attributes requests to THIS connection (its authenticated identity) and calls THIS network's service
-                            assert(h0.send_stream.codec == h0.recv_stream.codec && (this.config.max_frame_size is Some ==> h0.send_stream.codec.max == this.config.max_frame_size->Some_0)); // @OBL InboundRequestHandler::start::accept_loop::handler_uses_configured_limit [C15] and frames both directions with the configured maximum frame size''', 'after', False)],
+                            dict(rule='X5', pattern='std::panic::resume_unwind', repl='resume_unwind', optional=True)],
+                  transforms=[accept_loop_standin(KEY, ['C06'], C=C, js=js, cr=cr)],
                   spec='''
     ensures
         from_connection(close_reason, this.connection), // @OBL InboundRequestHandler::start::accept_loop::ends_only_on_connection_error [C06,C09] the accept loop ends only when the connection itself reports an error (closed, timed out, reset): nothing carried by a stream, a unidirectional stream or a datagram, and no failed request, ends it
